@@ -15,6 +15,12 @@ from . import symnp as snp
 from . import lam
 
 
+def _norm(path):
+    """lexical normalisation (a/../b, ./, //) of a virtual path"""
+    import posixpath
+    return posixpath.normpath(str(path))
+
+
 class Entry(object):
     def __init__(self, kind, **kw):
         self.kind = kind          # 'dir' 'npy' 'raw' 'text' 'cbin' 'other'
@@ -30,16 +36,16 @@ class FS(object):
 
     def add(self, path, entry, preexisting=True):
         entry.preexisting = preexisting
-        self.entries[str(path)] = entry
+        self.entries[_norm(path)] = entry
         return entry
 
     def mkdir(self, path):
-        p = str(path)
+        p = _norm(path)
         if p not in self.entries:
             self.entries[p] = Entry('dir')
 
     def get(self, path):
-        e = self.entries.get(str(path))
+        e = self.entries.get(_norm(path))
         if e is None:
             return None
         if e.present is True:
@@ -49,7 +55,7 @@ class FS(object):
         return e if _b.bool(e.present) else None
 
     def listdir(self, path):
-        p = str(path).rstrip('/')
+        p = _norm(path).rstrip('/')
         out = []
         for k in sorted(self.entries):
             if k.startswith(p + '/') and '/' not in k[len(p) + 1:]:
@@ -92,7 +98,7 @@ class VPath(PurePosixPath):
         return False
 
     def resolve(self):
-        return self
+        return VPath(_norm(self))
 
     def absolute(self):
         return self
@@ -102,7 +108,7 @@ class VPath(PurePosixPath):
             if not exist_ok:
                 raise FileExistsError(str(self))
             return
-        _FS.log.append(('mkdir', str(self)))
+        _FS.log.append(('mkdir', _norm(self)))
         _FS.mkdir(self)
 
     def stat(self):
@@ -125,16 +131,16 @@ class VPath(PurePosixPath):
     def unlink(self):
         if _FS.get(self) is None:
             raise FileNotFoundError(str(self))
-        _FS.log.append(('unlink', str(self)))
-        del _FS.entries[str(self)]
+        _FS.log.append(('unlink', _norm(self)))
+        del _FS.entries[_norm(self)]
 
     def rename(self, target):
         e = _FS.get(self)
         if e is None:
             raise FileNotFoundError(str(self))
-        _FS.log.append(('rename', str(self), str(target)))
-        del _FS.entries[str(self)]
-        _FS.entries[str(target)] = e
+        _FS.log.append(('rename', _norm(self), _norm(target)))
+        del _FS.entries[_norm(self)]
+        _FS.entries[_norm(target)] = e
         return VPath(str(target))
 
     def open(self, mode='r', **kw):
@@ -155,7 +161,7 @@ class VPath(PurePosixPath):
 
 
 def _write_entry(path, entry):
-    p = str(path)
+    p = _norm(path)
     old = _FS.get(p)
     _FS.log.append(('overwrite' if old is not None else 'create', p))
     entry.preexisting = False
